@@ -507,6 +507,7 @@ Proof.
   unfold eliminate_vars. intros Hf.
   destruct (elim_loop (states m) (algs m) (algs m) mt (eqs m)) as [[[al defs] kept] u] eqn:E.
   destruct u. { simpl. congruence. }
+  simpl. destruct (has_dup (map fst defs)). { simpl. congruence. }
   pose proof (elim_loop_sound r _ _ _ _ _ _ _ _ E) as L.
   intros _ [H1 H2 H3 H4 H5]. apply L in H1. destruct H1 as [Hk Hd].
   destruct defs as [| d0 defs'].
@@ -564,11 +565,11 @@ Theorem closed_eliminate_vars mt m :
   length vals = length vars ->
   (forall v x, In v vals -> In x vars -> occurs x v = false) ->
   forall e x, In e (eqs (eliminate_vars mt m) ++ ieqs (eliminate_vars mt m)) ->
-              u = false -> defs <> [] -> In x vars -> occurs x e = false.
+              u = false -> has_dup vars = false -> defs <> [] -> In x vars -> occurs x e = false.
 Proof.
   unfold eliminate_vars.
   destruct (elim_loop (states m) (algs m) (algs m) mt (eqs m)) as [[[al defs] kept] u] eqn:E.
-  simpl. intros Hlen Hfree e x Hin Hu Hne Hx. subst u.
+  simpl. intros Hlen Hfree e x Hin Hu Hd Hne Hx. subst u. rewrite Hd in Hin. simpl in Hin.
   destruct defs as [| d0 defs']; try congruence. remember (d0 :: defs') as defs.
   destruct (subst_fix SUBSTITUTE_LOOP_LIMIT (map fst defs) (map snd defs)) as [vals conv] eqn:SF.
   simpl in *.
